@@ -36,6 +36,9 @@ type Mutant struct {
 	Neutral bool   `json:"neutral"` // must stay silent
 	Canary  bool   `json:"canary"`  // also run in the quick tier
 	Note    string `json:"note,omitempty"`
+	// Patch names a unified diff (relative to the verif root) whose hunks are applied as further edits; used to keep
+	// the independently seeded changes under seeded/ as a permanent part of the self-test.
+	Patch string `json:"patch,omitempty"`
 	// More holds further edits (other files or places) that belong to the same change ("two cooperating sites").
 	More []struct {
 		File    string `json:"file"`
@@ -43,6 +46,8 @@ type Mutant struct {
 		Replace string `json:"replace"`
 	} `json:"more,omitempty"`
 }
+
+var verifRoot = "/verif"
 
 func loadMutants(dir, prop string) ([]Mutant, error) {
 	var out []Mutant
@@ -107,6 +112,10 @@ func main() {
 	if err != nil {
 		fmt.Fprintf(os.Stderr, "known_findings.json: %v\n", err)
 		os.Exit(2)
+	}
+	verifRoot = *verif
+	if _, err := os.Stat(filepath.Join(verifRoot, "seeded")); err != nil {
+		verifRoot = "/verif" // alternative -verif roots (try scripts) carry only known_findings.json
 	}
 	mutants, err := loadMutants(filepath.Join(*verif, "checker", "mutants"), d.ID)
 	if err != nil {
@@ -255,12 +264,34 @@ func firstLine(s string) string {
 
 // overlayFor builds the overlay of a mutant; status is non-empty when it cannot be applied.
 func overlayFor(repo string, m Mutant) (map[string][]byte, string) {
-	type edit struct{ file, find, replace string }
-	edits := []edit{{m.File, m.Find, m.Replace}}
+	type edit struct {
+		file, find, replace string
+		line                int // hint for hunks of a patch (0: the text must be unique)
+	}
+	var edits []edit
+	if m.File != "" {
+		edits = append(edits, edit{m.File, m.Find, m.Replace, 0})
+	}
 	for _, x := range m.More {
-		edits = append(edits, edit{x.File, x.Find, x.Replace})
+		edits = append(edits, edit{x.File, x.Find, x.Replace, 0})
 	}
 	out := map[string][]byte{}
+	if m.Patch != "" {
+		b, err := os.ReadFile(filepath.Join(verifRoot, m.Patch))
+		if err != nil {
+			return nil, "stale (patch file missing)"
+		}
+		hunks, newFiles, perr := parseUnifiedDiff(string(b))
+		if perr != nil {
+			return nil, "unreadable patch: " + perr.Error()
+		}
+		for f, content := range newFiles {
+			out[filepath.Join(repo, f)] = []byte(content)
+		}
+		for _, h := range hunks {
+			edits = append(edits, edit{h.file, h.old, h.new, h.line})
+		}
+	}
 	for _, e := range edits {
 		path := filepath.Join(repo, e.file)
 		var s string
@@ -277,10 +308,94 @@ func overlayFor(repo string, m Mutant) (map[string][]byte, string) {
 		if n == 0 {
 			return nil, "stale (text not found: the tree was edited)"
 		}
-		if n > 1 {
+		if n > 1 && e.line == 0 {
 			return nil, fmt.Sprintf("ambiguous (%d matches)", n)
+		}
+		if n > 1 {
+			// several matches of a patch hunk: take the one nearest to the line the hunk header names
+			best, bestDist := -1, 1<<30
+			for off := 0; ; {
+				i := strings.Index(s[off:], e.find)
+				if i < 0 {
+					break
+				}
+				ln := 1 + strings.Count(s[:off+i], "\n")
+				d := ln - e.line
+				if d < 0 {
+					d = -d
+				}
+				if d < bestDist {
+					best, bestDist = off+i, d
+				}
+				off += i + 1
+			}
+			out[path] = []byte(s[:best] + e.replace + s[best+len(e.find):])
+			continue
 		}
 		out[path] = []byte(strings.Replace(s, e.find, e.replace, 1))
 	}
 	return out, ""
+}
+
+type diffHunk struct {
+	file, old, new string
+	line           int
+}
+
+// parseUnifiedDiff turns the hunks of a git diff into find/replace edits (context+removed lines => context+added
+// lines) and returns whole new files separately. Test files are skipped: the loader does not read them.
+func parseUnifiedDiff(s string) ([]diffHunk, map[string]string, error) {
+	var hunks []diffHunk
+	newFiles := map[string]string{}
+	lines := strings.Split(s, "\n")
+	file, isNew := "", false
+	var cur *diffHunk
+	flush := func() {
+		if cur != nil && !strings.HasSuffix(cur.file, "_test.go") && strings.HasSuffix(cur.file, ".go") {
+			if isNew {
+				newFiles[cur.file] = cur.new
+			} else {
+				hunks = append(hunks, *cur)
+			}
+		}
+		cur = nil
+	}
+	for i := 0; i < len(lines); i++ {
+		l := lines[i]
+		switch {
+		case strings.HasPrefix(l, "diff --git "):
+			flush()
+			file, isNew = "", false
+		case strings.HasPrefix(l, "--- "):
+			if cur == nil {
+				isNew = strings.HasPrefix(l, "--- /dev/null")
+			} else {
+				cur.old += l[1:] + "\n"
+			}
+		case strings.HasPrefix(l, "+++ ") && cur == nil:
+			file = strings.TrimPrefix(strings.TrimPrefix(l, "+++ "), "b/")
+		case strings.HasPrefix(l, "@@"):
+			flush()
+			if file == "" {
+				return nil, nil, fmt.Errorf("hunk before file header at line %d", i+1)
+			}
+			cur = &diffHunk{file: file}
+			fmt.Sscanf(l, "@@ -%d", &cur.line)
+		case cur != nil && strings.HasPrefix(l, " "):
+			cur.old += l[1:] + "\n"
+			cur.new += l[1:] + "\n"
+		case cur != nil && strings.HasPrefix(l, "-"):
+			cur.old += l[1:] + "\n"
+		case cur != nil && strings.HasPrefix(l, "+"):
+			cur.new += l[1:] + "\n"
+		case cur != nil && l == "":
+			// blank context line whose leading space was trimmed, or the end of the file
+			if i != len(lines)-1 {
+				cur.old += "\n"
+				cur.new += "\n"
+			}
+		}
+	}
+	flush()
+	return hunks, newFiles, nil
 }
